@@ -344,9 +344,9 @@ class Interp:
             self.setitem(obj, key, new)
         elif isinstance(t, ast.Attribute):
             obj = self.eval(t.value, frame)
-            cur = self.getattr(obj, t.attr)
+            cur = self.getattr(obj, self.mangle(t.attr, frame))
             new = self.aug(op, cur, self.eval(node.value, frame), node)
-            self.setattr(obj, t.attr, new)
+            self.setattr(obj, self.mangle(t.attr, frame), new)
         else:
             raise OutsideSubset("augassign target")
 
@@ -581,7 +581,7 @@ class Interp:
             self.setitem(obj, key, val)
         elif isinstance(target, ast.Attribute):
             obj = self.eval(target.value, frame)
-            self.setattr(obj, target.attr, val)
+            self.setattr(obj, self.mangle(target.attr, frame), val)
         else:
             raise OutsideSubset("assignment target %s" % type(target).__name__)
 
@@ -642,7 +642,20 @@ class Interp:
         return d
 
     def e_Attribute(self, node, frame):
-        return self.getattr(self.eval(node.value, frame), node.attr)
+        return self.getattr(self.eval(node.value, frame), self.mangle(node.attr, frame))
+
+    @staticmethod
+    def mangle(attr, frame):
+        """private name mangling of `__name` inside a class body (done by CPython's compiler)"""
+        if attr.startswith("__") and not attr.endswith("__"):
+            f = frame
+            while f is not None and not hasattr(f, "fn_obj"):
+                f = f.parent
+            q = getattr(getattr(f, "fn_obj", None), "__qualname__", "")
+            parts = q.replace(".<locals>", "").split(".")
+            if len(parts) >= 2:
+                return "_%s%s" % (parts[-2].lstrip("_"), attr)
+        return attr
 
     def getattr(self, obj, attr):
         h = self.models.attr_hook(self, obj, attr)
@@ -974,7 +987,8 @@ class Interp:
             self.trusted_used.add("model:" + m.__name__)
             return m(self, *args, **kwargs)
         if isinstance(f, type) and f.__module__.startswith("typhon") and not self.concrete \
-                and (deep_sym(args) or deep_sym(kwargs)):
+                and (deep_sym(args) or deep_sym(kwargs)
+                     or (self.registry is not None and "%s:%s" % (f.__module__, f.__qualname__) in self.registry.interpreted_constructors)):
             return self.models.construct(self, f, args, kwargs, node, frame)
         if deep_sym(args) or deep_sym(kwargs):
             if self.models.transparent(f):
